@@ -163,10 +163,12 @@ def main():
                f"{'6 rotating of ' if B.thorough else ''}12 names; format/parse identity on all 0<=a<=b<={N_id} + boundary values x 12 names; "
                f"6 malformations x 12 names x coordinate grid; parse_region on all (start,end) in {{None,-2..L+2}}^2 for L in (1,4,7), "
                f"string+tuple forms, dict/Series/None chromsizes; URI: 9 files x 8 groups x 3 spellings + multi-'::' + real file; "
-               f"{n15} seeded numerals with <=15 significant digits")
+               f"on top of the exhaustive bound: {n15} seeded numerals with <=15 significant digits (value < 2^63)")
     B.rule = ("case = one input string (or tuple) and the parser it is given to; every case is non-trivial; distinct by (contract, input); "
               "expected values from integer arithmetic on the digits, never from float")
-    B.exhaustive = True   # the stated grammar bound is enumerated exhaustively; the 15-digit part is sampled (named as such)
+    # the stated grammar bound is enumerated exhaustively in both tiers; the 15-digit numerals are a seeded sample on top of
+    # it (named as such in the bound).  The thorough tier leans on that sample (400k) and is therefore not labelled exhaustive.
+    B.exhaustive = not B.thorough
 
     # ---------------------------------------------------------------- parse_humanized: exact integer
     C = "humanized:denotes-exact-integer"
